@@ -19,6 +19,7 @@ STEP_LIMIT = 600_000
 FORMATS = ["qcow2", "vmdk", "vhdx", "vhd", "vdi", "hds"]
 K_REQ, K_META, C_REQ = 4, 4, 256 * 1024
 K_OPEN, C_OPEN = 4, 1 << 20
+K_DATA, C_DATA = 2, 8192
 
 
 def table_size(fmt, cfg):
@@ -170,6 +171,13 @@ def _run_variant(case, ops, tag):
                 return ("mismatch", f"{op} [{tag}]: first wrong byte at +{i} (disk offset {off + i}): got {describe(got, s0)}, want {describe(want, s0)}"), trace, world, img
             eff = min(ln, max(0, size - off))
             allowed = K_REQ * (eff + 2 * case["align"]) + K_META * F.req_meta_bytes(case["cfg"], img, off, eff + 2 * case["align"]) + C_REQ
+            # guest data proper (bytes of allocation units' payload, as told apart by the storage fake): what a request may pull
+            # from the data area is the request itself, widened to the stream buffer's alignment on both sides
+            dcost = after["data"] - before["data"]
+            dallowed = K_DATA * (eff + 2 * case["align"]) + C_DATA
+            if dcost > dallowed:
+                return ("io-data", f"{op} [{tag}] read {dcost} bytes of guest data from storage for a {eff}-byte request with {case['align']}-byte "
+                                   f"stream buffers (allowed {dallowed})"), trace, world, img
             if cost > allowed:
                 return ("io-request", f"{op} [{tag}] read {cost} bytes from storage for a {eff}-byte request (allowed {allowed})"), trace, world, img
             # cumulative budget: a mapping table is paid for once per run, however many requests it serves
